@@ -32,7 +32,7 @@ CHECKS = {
    "Trusts SimFs' live semantics (differential self-test against a real directory) and model M1 (ordered metadata journal). Strict-POSIX directory reordering is not assumed.", "3 C01, 2.3"),
  "C02": ("crash", "fault_enumeration",
    "deterministic simulation: multi-crash histories with torn/dropped/kept log tails, recovery vs. reference model",
-   "Up to four sessions separated by pinned crashes (log tail dropped, kept or torn at a chosen byte), the last session swept at every primitive boundary with every cut of the last un-synced log write; after each image a writer is opened, a probe add + commit is made, and add index + contents must equal the crash-free result for exactly the operations whose records reached the image (known from which API call wrote which byte, not from parsing).",
+   "Up to four sessions (adds, deletes, commits, rollbacks, savepoint/rollback_to, compaction) separated by pinned crashes (log tail dropped, kept or torn at a chosen byte), the last session swept at every primitive boundary with every cut of the last un-synced log write; after each image a writer is opened, a probe add + commit is made, and add index + contents must equal the crash-free result for exactly the operations whose records reached the image (known from which API call wrote which byte, not from parsing).",
    "Same trusted base as C01; one live writer handle at a time.", "3 C02"),
  "C03": ("fault", "fault_enumeration",
    "deterministic simulation: fault-plan enumeration over the primitives of the simulated file system",
@@ -40,16 +40,16 @@ CHECKS = {
    "Faults are clean (error returned, effect absent or complete, ENOSPC applies a prefix); faults stop when the target call returns.", "3 C03"),
  "C04": ("model", "exploration",
    "deterministic simulation (fault-free configuration) against an executable reference model",
-   "Seeded fault-free histories (1-3 writer handles, kept readers, reopen, compaction) on FsStorage+SimFs and InMemoryStorage are executed on the real core and on the reference model; after every call a fresh reader must show exactly the model's committed state with the independently computed stored projection, add_document must return the model's value, kept readers must keep their snapshot.",
+   "Seeded fault-free histories (1-3 writer handles, kept readers, reopen, compaction, savepoint/rollback_to, delete_documents with several ids, long documents, large id spaces, purge-compact-refill) over four schema profiles on FsStorage+SimFs and InMemoryStorage are executed on the real core and on the reference model; after every call a fresh reader must show exactly the model's committed state with the independently computed stored projection, add_document must return the model's value, kept readers must keep their snapshot.",
    "The reference model of DESIGN 2.4 is the intended semantics; overlapping handles judged on FsStorage only.", "3 C04"),
  "C05": ("sched", "exploration",
    "deterministic simulation: seeded thread schedules under an owned (baton) scheduler + linearizability check",
-   "2-4 writer threads with their own handles (+ optional compactor and reader) run as real OS threads of which exactly one runs at a time; the scheduler decides at every lock acquire/release, every FS primitive and every call boundary (uniform, sticky and PCT-style policies); invoke/return events carry global sequence numbers and a Wing-Gong search looks for a serial order in which the reference model returns every observed result and ends in the observed final contents (live and reopened from disk); no call may fail, panic or deadlock.",
+   "2-4 writer threads with their own handles (+ optional compactor and reader; one case in eight is the scenario purge - compaction - refill - stale handle) run as real OS threads of which exactly one runs at a time; the scheduler decides at every lock acquire/release, every FS primitive and every call boundary (uniform, sticky and PCT-style policies); invoke/return events carry global sequence numbers and a Wing-Gong search looks for a serial order in which the reference model returns every observed result and ends in the observed final contents (live and reopened from disk); no call may fail, panic or deadlock.",
    "Code between yield points is atomic (threads interact only through the two index locks and the file system); schedules are sampled, not enumerated.", "3 C05, 2.5"),
  "C06": ("sched", "exploration",
    "deterministic simulation: seeded thread schedules under an owned (baton) scheduler + linearizability check",
    "Reader-heavy programs (open, search, search again, reopen) against committing writers and a compactor under the same scheduler; reader() and search never fail, each reader's first result equals the committed state at some point between its open's invocation and return (it takes part in the linearizability search), and every later search on the same reader returns the same result whatever was committed, compacted or unlinked since.",
-   "Same as C05; SimFs keeps unlinked inodes readable through open handles as POSIX does.", "3 C06, 2.5"),
+   "Same as C05; SimFs keeps unlinked inodes readable through open handles as POSIX does; a quarter of the cases run on InMemoryStorage with one writer thread.", "3 C06, 2.5"),
  "C14": ("model", "exploration",
    "deterministic simulation (fault-free configuration) with before/after compaction differential",
    "Histories ending in (and containing) compactions; around every compaction the full stored contents and the hit sets of a probe battery (term, phrase, prefix, query_string, keyword/range filters, nested filters incl. Not inside Nested and nested-in-nested) are compared before/after; one segment afterwards; the unsafe schema profile must be refused with files, manifest and results unchanged.",
@@ -60,11 +60,11 @@ CHECKS = {
    "One media fault at a time; dead bytes (no observable change) are not violations.", "3 C17"),
  "C23": ("http", "exploration",
    "deterministic simulation: request histories against the real router in-process, queue reference model",
-   "Seeded histories of valid and invalid /add (NDJSON), /bulk, /delete, /commit, /refresh, /compact, /search, /stats requests are handed to the real axum Router as a tower Service (no socket) on a current-thread tokio runtime; a 2xx write appends its operations to the model queue, a rejected one appends nothing, a 2xx /commit folds the queue; after every commit /search match_all and /stats.documents must equal the model; bodies are split at arbitrary byte boundaries.",
-   "Sequential clients; hyper's connection layer is not exercised; index on tmpfs (no crash/disk fault in this property).", "3 C23, 2.6"),
+   "Seeded histories of valid and invalid /add (NDJSON), /bulk, /delete, /commit, /refresh, /compact, /search, /stats requests are handed to the real axum Router as a tower Service (no socket) on a current-thread tokio runtime; a 2xx write appends its operations to the model queue, a rejected one appends nothing, a 2xx /commit folds the queue; after every commit /search match_all and /stats.documents must equal the model; bodies are split at arbitrary byte boundaries. A third of the cases end in a block of 2-6 concurrent requests driven by a seeded executor (blocking tasks parked at spawn, at outermost core lock boundaries and on a contended writer lock; one thread runs at a time; a client may go away): the block's responses plus a final commit/search must be linearizable on the queue model. A fifth of the sequential cases fail one storage primitive under a request: un-acknowledged writes/commits may or may not have taken effect (set of allowed model states), acknowledged ones must never be lost.",
+   "hyper's connection layer is not exercised; index on tmpfs behind a pass-through VFS (single failing primitive, no crash); concurrent requests interleave at blocking-task granularity.", "3 C23, 2.6"),
  "C24": ("http", "exploration",
    "deterministic simulation: request histories with transport faults under a simulated (paused) clock",
-   "Same runs plus unknown paths/methods, wrong content types, malformed and mutated bodies, and transport faults: arbitrary chunk boundaries, a client that stalls forever (the simulated clock runs to the 30 s TimeoutLayer in microseconds), bodies over the limit with and without Content-Length. Every request must resolve; 2xx bodies must have the documented shape, every non-2xx body must be {error:{type,reason}}; classes known by construction get their code (4xx invalid, 404 no index/unknown path, 405, 409 second init, 413 oversize, 504 stall); /healthz stays 200.",
+   "Same runs plus unknown paths/methods, wrong content types, malformed and mutated bodies, and transport faults: arbitrary chunk boundaries, a client that stalls forever (the simulated clock runs to the 30 s TimeoutLayer in microseconds), connection resets mid-body, bodies over the limit with and without Content-Length; searches with extreme numeric parameters; one storage primitive failing or panicking under a request; blocks of concurrent requests with stalled / reset / vanished clients. The engine runs in a child process: a request that kills the process is reported (server-down) with a minimised replay. Every request must resolve; 2xx bodies must have the documented shape, every non-2xx body must be {error:{type,reason}}; classes known by construction get their code (4xx invalid, 404 no index/unknown path, 405, 409 second init, 413 oversize, 504 stall); /healthz stays 200.",
    "Same as C23; the 'however malformed' input space is only sampled - simulation contributes the transport/time dimension and cross-request state.", "3 C24, 2.6"),
  "C27": ("idb", "exploration",
    "deterministic simulation: simulated browser event loop + IndexedDB under the real wasm persistence layer",
@@ -72,7 +72,7 @@ CHECKS = {
    "Adversary R (FIFO tasks, transactions complete in creation order - what wasm-bindgen-futures and the IndexedDB specification give); arbitrary orders are exploration only (VERIF_IDB_LOOSE), see DESIGN.", "3 C27, 2.6"),
  "C28": ("model", "exploration",
    "deterministic simulation with a path monitor on the file-system seam",
-   "Relocate is a generated operation: the index directory is copied inside SimFs, the original kept / emptied / removed, the copy opened and the history continues (search, add, commit, compaction); contents must equal the model, no FS primitive may touch a path outside the new root, the original's files must stay byte-identical.",
+   "Relocate is a generated operation: the index directory is copied inside SimFs (new root unrelated, a textual prefix or an extension of the old name), the original kept / emptied / removed, the copy opened - with Index::open or through Index::open_with_storage and a storage object created for the original root - and the history continues (search, add, commit, compaction); contents must equal the model, no FS primitive may touch a path outside the new root, the original's files must stay byte-identical.",
    "The copy is taken while no handle is open (as a backup tool would).", "3 C28"),
 }
 
@@ -112,7 +112,7 @@ def main():
       "engines": [
         {"name": "E1", "path": "/verif/sim/src/{simfs,crash,model,work,e1_*}.rs", "serves_properties": ["C01","C02","C03","C04","C14","C17","C28"], "kind_free_text": "single-threaded deterministic simulation of searchlite-core on a simulated disk (SimFs) with crash-image enumeration, fault plans, media faults, path monitor and reference model"},
         {"name": "E2", "path": "/verif/sim/src/{sched,e2}.rs", "serves_properties": ["C05","C06"], "kind_free_text": "real threads under a seeded baton scheduler (one runs at a time; yield points at lock hooks, FS primitives, call boundaries) + Wing-Gong linearizability check against the reference model"},
-        {"name": "E3", "path": "/verif/sim/e3http/src/main.rs", "serves_properties": ["C23","C24"], "kind_free_text": "the real axum router driven in-process as a tower Service on a current-thread tokio runtime with paused clock; simulated clients with chunking, stalls and oversize bodies; queue model + response-shape oracle"},
+        {"name": "E3", "path": "/verif/sim/e3http/src/{main,conc,passfs}.rs", "serves_properties": ["C23","C24"], "kind_free_text": "the real axum router driven in-process as a tower Service on a current-thread tokio runtime with paused clock, in a supervised child process; simulated clients with chunking, stalls, resets, oversize bodies and disconnects; blocks of concurrent requests under a seeded executor with blocking tasks released one at a time; storage faults through a pass-through VFS; queue model (linearizability, allowed-state sets) + response-shape oracle"},
         {"name": "E4", "path": "/verif/sim/e4idb/src/{main,verif_idb}.rs", "serves_properties": ["C27"], "kind_free_text": "searchlite-wasm's wasm.rs compiled natively on a simulated single-threaded browser host: FIFO microtask queue, IndexedDB with ordered transactions, page scripts, page close at any macrotask boundary"},
       ],
       "checks": checks,
